@@ -15,6 +15,8 @@ def feed(ctx, res, findings, suite):
     fails = res['fails']
     if ctx.prop != 'C01':   # the permission-bit finding F-C01-d and the dropped driver warning F-C01-e belong to C01 only; the other properties speak neither about mode bits nor about diagnostics
         fails = [f for f in fails if f['kind'] not in ('output_mode_masked_by_server_umask', 'clangxx_c_input_warning_dropped')]
+    if ctx.prop != 'C09':   # permission bits taken from a damaged entry (F-C09-c) are a matter of C09 ("correct outputs whatever is wrong with the storage")
+        fails = [f for f in fails if f['kind'] != 'output_mode_from_damaged_entry']
     monitor_failures(ctx, fails, findings, suite, to_replay)
 
 def sysroot(ctx, name):
